@@ -35,7 +35,12 @@ LEVEL = "proof"
 RULE = ("a case is one operation of a generated call history over a pool of 6-8 generated documents that share "
         "object numbers, font resource names (/F1 is a different font per document, page and form XObject), base "
         "encodings with different /Differences, predefined CMap names, ToUnicode maps, inherited/shared/own "
-        "resources, object streams and RC4 encryption; operations: extract_text / extract_pages / "
+        "resources, object streams, Flate-compressed and shared content streams and RC4 encryption; systematically "
+        "per pool: every base-encoding spelling (4 known names, an unknown name, none) with non-empty /Differences, as a "
+        "name and absent, every simple font type, every predefined CMap; per document: page 0 ends with unpainted path "
+        "segments / unbalanced q / changed line width / dangling operands, later pages begin with a stray Q and painted "
+        "shapes, use font and XObject names only the previous page defines, show text before any Tf; observables "
+        "include shapes (LTRect/LTLine/LTCurve with points, width, colours, original path); operations: extract_text / extract_pages / "
         "extract_text_to_fp(text,xml,html,tag) / open-next-close of interleaved page iterators (public generator "
         "and an introspectable pipeline) / page-at-a-time / CMapParser usecmap, each with caching on or off, page "
         "subsets and 4 LAParams variants; distinct = distinct (document bytes, operation, options, position in "
@@ -78,6 +83,9 @@ STATEMENT_STATUS: Dict[str, str] = {
     "C12_next_frame": "proved: next() on one iterator leaves every other iterator untouched",
     "C12_open_todo": "proved",
     "C12_interleaving": "proved: outputs addressed to iterator hid in ANY history = the same operations run alone from init",
+    "C12_interp_reset": "proved: whatever the interpreter was left with by the previous page (unpainted path, unbalanced q, line width, dangling operands), the next page's result is the fresh page",
+    "C12_interp_left_independent": "proved: what a page leaves behind does not depend on what it found",
+    "curpath_leak_cex": "proved counter-example: init_state without the reset of the current path leaks a shape into the next page",
     "C12_cmap_copy": "proved: extending a private CMap built with usecmap leaves the shared CMap = fresh load",
     "nocopy_cex": "proved counter-example: get_encoding without the copy leaks /Differences into later fonts",
     "shared_cache_cex": "proved counter-example: a memo table answered under another document's fresh function returns the other document's value (font cache keyed by name / manager shared across documents)",
